@@ -37,7 +37,7 @@ def bounded_task():
 
 
 def _templates():
-    res = ordering.template_obligations(PROP)
+    res = ordering.template_obligations(PROP) + ordering.run_time_values_obligation(PROP)
     if any(r.status == REFUTED for r in res):
         from bounded import c12
         hit = c12.hashseed_pages()
